@@ -44,6 +44,12 @@ LReset(h)     == Alive(h) /\ loc' = [loc EXCEPT ![h].pend = Z] /\ UNCHANGED <<sh
 \* a clone starts empty
 LClone(h, g)  == Alive(h) /\ loc[g].st = "none" /\ loc' = [loc EXCEPT ![g] = [st |-> "alive", pend |-> Z]]
                  /\ UNCHANGED <<shared, direct, flushed>> /\ USingle
+\* g.clone_from(&h): the value g held is dropped (a local histogram flushes; a local counter: unspecified when something is
+\* pending) and g becomes a fresh clone of h
+LCloneFrom(h, g, f) == Alive(h) /\ Alive(g) /\ h # g /\ (Kind = "hist" => f = TRUE)
+                 /\ shared' = (IF f THEN Plus(shared, loc[g].pend) ELSE shared)
+                 /\ flushed' = (IF f THEN Plus(flushed, loc[g].pend) ELSE flushed)
+                 /\ loc' = [loc EXCEPT ![g].pend = Z] /\ UNCHANGED direct /\ USingle
 DropFlushes(f) == IF Kind = "hist" THEN f = TRUE ELSE TRUE            \* counters: unspecified when something is pending
 LDrop(h, f)   == Alive(h) /\ DropFlushes(f)
                  /\ shared' = (IF f THEN Plus(shared, loc[h].pend) ELSE shared)
